@@ -595,6 +595,44 @@ def check_class_level_scenarios(ctx):
         ctx.case('own-format:' + template + repr(sorted(fields.items())))
         if fb.message != want or not any(x is fb for x in report.feedback[n0:]):
             ctx.violation('C20|message-differs|formatter-with-own-formats', case, 'expected %r, got %r (triggered list: %s)' % (want, fb.message, any(x is fb for x in report.feedback[n0:])))
+    # (a2) the grader keeps ONE dictionary of fields and hands it to several feedbacks: each message is made of what was in it
+    # when that feedback was created, and nothing is added to the grader's dictionary
+    report.format = Formatter()
+    shared = {'who': 'first'}
+    for t in range(ctx.pick(20, 200)):
+        given = dict(shared)
+        template = rng.choice(['Seen {who}', 'Seen {who} at {location}', '{who}!', 'At {location}'])
+        kw = {}
+        if rng.random() < 0.5:
+            kw['location'] = rng.randint(1, 9)
+        case = {'scenario': 'one-fields-dictionary-for-several-feedbacks', 'template': template, 'fields': dict(shared), 'keywords': dict(kw)}
+        needs_location = '{location}' in template
+        raised = fb = None
+        n0 = len(report.feedback)
+        try:
+            fb = Feedback(label='shared_fields', message_template=template, fields=shared, **kw)
+        except BaseException as e:
+            raised = e
+        ctx.count('constructions_with_a_shared_fields_dictionary')
+        ctx.case('shared:%s:%r:%r' % (template, sorted(shared.items()), sorted(kw.items())))
+        if shared != given:
+            ctx.violation('C20|callers-fields-dictionary-changed-by-a-construction', case, 'it held %r, now %r' % (given, shared))
+            shared.clear(); shared.update(given)
+        if needs_location and 'location' not in kw:
+            if raised is None:
+                ctx.violation('C20|message-error-not-raised|one-fields-dictionary-for-several-feedbacks', case,
+                              'this call gave no location; delivered %r' % (getattr(fb, 'message', None),))
+        elif raised is not None:
+            ctx.violation('C20|constructor-raised|%s|one-fields-dictionary-for-several-feedbacks' % type(raised).__name__, case, repr(raised)[:200])
+        else:
+            want = template.replace('{who}', str(given['who']))
+            if needs_location and str(kw['location']) not in fb.message:
+                ctx.violation('C20|message-differs|one-fields-dictionary-for-several-feedbacks', case, 'expected the location %r in %r' % (kw['location'], fb.message))
+            elif not needs_location and fb.message != want:
+                ctx.violation('C20|message-differs|one-fields-dictionary-for-several-feedbacks', case, 'expected %r, got %r' % (want, fb.message))
+        shared['who'] = rng.choice(['first', 'second', 'third'])
+        if t % 40 == 39:
+            clear_report()
     # (b)
     report.format = Formatter()
     constants = {'label_text': 'const', 'const_value': 1}
